@@ -280,40 +280,20 @@ def run(ctx):
         ctx.ob("R-GRD", "Aspa::read_payload:providers-multiple-of-4", ok,
                "Aspa::read_payload succeeds only if the provider list length is a multiple of 4", where=ab.loc,
                detail=None if ok else K.why(f, mp, ab.name))
-    # Payload::read: unknown PDU types fail; EndOfData: versions other than 0,1,2 fail
+    # Payload::read: unknown PDU types fail; EndOfData: versions other than 0,1,2 fail.  Decided per value of the
+    # (one-octet) header field: whichever way the dispatch is written — `match` on the field or on its accessor, an
+    # `if` chain, range patterns — for every value the feasible edges are followed and what can be reached is compared
+    # with the table.
     pb = f.body(P + "Payload::read::{closure#0}")
     if pb is not None:
-        oc = outcome(pb)
-        sws = [bi for bi, blk in enumerate(pb.blocks) if blk["term"]["t"] == "switch" and
-               re.search(r"\.pdu$", render(strip_deep(oc.sym.operand(blk["term"]["discr"]))))]
-        ok = False
-        detail = None
-        if sws:
-            t = pb.term(sws[0])
-            vals = sorted(v for v, _ in t["targets"])
-            want = sorted(f.consts[P + x + "::PDU"]["v"] for x in ("Ipv4Prefix", "Ipv6Prefix", "RouterKey", "Aspa", "EndOfData"))
-            ok = vals == want and t["otherwise"] not in oc.success_reach()
-            detail = {"handled_types": vals, "expected": want}
+        want = dict((f.consts[P + x + "::PDU"]["v"], P + x + "::read_payload") for x in ("Ipv4Prefix", "Ipv6Prefix", "RouterKey", "Aspa", "EndOfData"))
+        ok, detail = dispatch_by_header_octet(f, pb, "pdu", want)
         ctx.ob("R-GRD", "Payload::read:unknown-type-fails", ok,
                "Payload::read dispatches exactly the payload PDU types and End-of-Data; any other type is an error", where=pb.loc, detail=detail)
     ebr = f.body(P + "EndOfData::read_payload::{closure#0}")
     if ebr is not None:
-        oc = outcome(ebr)
-        sws = [bi for bi, blk in enumerate(ebr.blocks) if blk["term"]["t"] == "switch" and
-               re.search(r"Header::version\(", render(strip_deep(oc.sym.operand(blk["term"]["discr"]))))]
-        ok = False
-        detail = None
-        if sws:
-            t = ebr.term(sws[0])
-            vals = sorted(v for v, _ in t["targets"])
-            ok = vals == [0, 1, 2] and t["otherwise"] not in oc.success_reach()
-            tg = dict((v, tb) for v, tb in t["targets"])
-            # 0 → V0 reader, 1|2 → V1 reader
-            r0 = {c.res for c in ebr.calls() if c.bb in ebr.reachable(tg[0]) and (c.res or "").endswith("read_payload")} if 0 in tg else set()
-            r1 = {c.res for c in ebr.calls() if c.bb in ebr.reachable(tg.get(1, -1)) and (c.res or "").endswith("read_payload")} if 1 in tg else set()
-            ok = ok and (P + "EndOfDataV0::read_payload") in r0 and (P + "EndOfDataV1::read_payload") in r1 and tg.get(1) == tg.get(2) or \
-                (ok and (P + "EndOfDataV0::read_payload") in r0 and (P + "EndOfDataV1::read_payload") in r1)
-            detail = {"versions": vals}
+        want = {0: P + "EndOfDataV0::read_payload", 1: P + "EndOfDataV1::read_payload", 2: P + "EndOfDataV1::read_payload"}
+        ok, detail = dispatch_by_header_octet(f, ebr, "version", want)
         ctx.ob("R-GRD", "EndOfData::read_payload:versions", ok,
                "EndOfData::read_payload accepts exactly versions 0 (V0 layout) and 1, 2 (V1 layout)", where=ebr.loc, detail=detail)
 
@@ -385,31 +365,30 @@ def run(ctx):
     from props import C04
     rd = [n for n, r in f.fns.items() if r.get("has_body") and n.startswith("rtr::pdu::") and
           r["name"] in ("read", "try_read", "read_payload", "skip_payload", "to_payload", "read_or_close")]
-    C04.check_reachable_sites(ctx, f, rd, "the RTR PDU readers", 30, 40)
+    C04.check_reachable_sites(_CursorSub(ctx, f), f, rd, "the RTR PDU readers", 30, 40)
 
     # ---- C07.f to_payload validates through the checked constructors -------------------------------------
-    mb = f.body(P + "Payload::to_payload::make_payload")
-    if mb is None:
-        ctx.missing("R-FLOW", "Payload::to_payload", P + "Payload::to_payload::make_payload")
+    # Anchored on the public `Payload::to_payload`: what it returns on success, with the private functions it delegates
+    # to (a nested fn, a private method, a shared helper for both address families, …) replaced by what they return.
+    tb = f.body(P + "Payload::to_payload")
+    if tb is None:
+        ctx.missing("R-FLOW", "Payload::to_payload", P + "Payload::to_payload")
     else:
-        ctx.saw_fn(mb.name)
-        vals = [render(t) for _, _, t in success_values(mb)]
-        sy = K.sym_of(mb)
-        for _, _, t in success_values(mb):
-            if t[0] == "agg" and t[2] == "Ok":
-                inner = strip_deep(dict(t[3])["0"])
-                if inner[0] == "var":
-                    vals += [render(strip_deep(d)) for _, d in sy.defs_of_var(inner[2])]
+        ctx.saw_fn(tb.name)
+        vals = sorted({render(t) for t in returned_terms(f, tb.name)})
+        me = re.escape(render(("param", tb.local_name(1) or "_1")))
         for fam in ("v4", "v6"):
             rx = r"Payload::origin\(Try::branch\(MaxLenPrefix::new\(Try::branch\(Prefix::new_%s_relaxed\(Ipv%sPrefix::prefix\(payload↓V%s\.0\), Ipv%sPrefix::prefix_len\(payload↓V%s\.0\)\)\)↓Continue\.0, option::Option::Some\{0: Ipv%sPrefix::max_len\(payload↓V%s\.0\)\}\)\)↓Continue\.0, Ipv%sPrefix::asn\(payload↓V%s\.0\)\)" % ((fam, fam[1], fam[1]) + (fam[1], fam[1]) * 3)
+            rx = rx.replace("payload", me)
             ok = any(re.search(rx, v) for v in vals)
             ctx.ob("R-FLOW", "to_payload:%s-origin-validated" % fam, ok,
                    "an IP%s origin is built from checked Prefix::new_%s_relaxed and MaxLenPrefix::new of the PDU's own fields" % (fam, fam),
-                   where=mb.loc, detail=None if ok else vals)
-        okw = any("Payload::aspa(Aspa::customer(payload↓Aspa.0), ProviderAsns::empty())" in v for v in vals) and \
-            any("Payload::aspa(Aspa::customer(payload↓Aspa.0), Aspa::providers(payload↓Aspa.0))" in v for v in vals)
+                   where=tb.loc, detail=None if ok else vals)
+        me = render(("param", tb.local_name(1) or "_1"))
+        okw = any("Payload::aspa(Aspa::customer(%s↓Aspa.0), ProviderAsns::empty())" % me in v for v in vals) and \
+            any("Payload::aspa(Aspa::customer(%s↓Aspa.0), Aspa::providers(%s↓Aspa.0))" % (me, me) in v for v in vals)
         ctx.ob("R-FLOW", "to_payload:aspa", okw, "an ASPA withdrawal yields empty providers, an announcement the PDU's providers",
-               where=mb.loc, detail=None if okw else vals)
+               where=tb.loc, detail=None if okw else vals)
 
 
 def check_plain_reads(ctx, f):
@@ -717,3 +696,283 @@ def multiple_of_edges(f, b, sym, bb, fx, k):
     if kind is None:
         return None
     return edges_except(b, bb, _FAIL_DISCR[kind])
+
+
+# ---------------------------------------------------------------------------------------------------------------
+# dispatch on a one-octet header field
+
+def is_header_field(f, t, field):
+    """`h.<field>` of a `Header`, or a call of an accessor of `Header` that returns just that field."""
+    t = strip_deep(t)
+    while t[0] == "cast":
+        t = strip_deep(t[1])
+    if t[0] == "field" and t[2] == field:
+        return (t[3] if len(t) > 3 else None) in (None, P + "Header")
+    if t[0] == "call" and len(t[2]) == 1:
+        res = (t[3] or {}).get("res")
+        r = f.fns.get(res) or {}
+        gb = f.body(res) if r.get("impl_adt") == P + "Header" else None
+        if gb is not None and gb.arg_count == 1:
+            vals = [v for _, _, v in success_values(gb)]
+            return len(vals) == 1 and vals[0][0] == "field" and vals[0][2] == field and strip_deep(vals[0][1])[0] == "param"
+    return False
+
+
+def octet_split(f, b, is_q):
+    """{v: blocks reachable from the entry when the octet Q (is_q) has value v, failure assignments removed} for all 256
+    values; None if Q is never tested.  Tests understood: a switch on Q, and comparisons of Q with a constant."""
+    from engine import orderlogic as OL
+    oc = outcome(b)
+    sym = oc.sym
+    tests = []
+    for bi, blk in enumerate(b.blocks):
+        t = blk["term"]
+        if t["t"] != "switch" or blk.get("cleanup"):
+            continue
+        d = sym.operand(t["discr"])
+        if t.get("dty") == "bool":
+            a, truth = OL.atom(d), True
+            while a[0] == "not":
+                a, truth = a[1], not truth
+            if a[0] != "cmp":
+                continue
+            if is_q(a[2]) and int_value(a[3], f) is not None:
+                op, c = a[1], int_value(a[3], f)
+            elif is_q(a[3]) and int_value(a[2], f) is not None:
+                op, c = {"<": ">", "<=": ">=", ">": "<", ">=": "<=", "==": "==", "!=": "!="}[a[1]], int_value(a[2], f)
+            else:
+                continue
+            tests.append((bi, op, c, truth))
+        elif is_q(d):
+            tests.append((bi, None, None, None))
+    if not tests:
+        return None
+    out, memo = {}, {}
+    for v in range(256):
+        removed = set()
+        for bi, op, c, truth in tests:
+            if op is None:
+                taken = edge_for(b, bi, v)
+            else:
+                val = {"<": v < c, "<=": v <= c, ">": v > c, ">=": v >= c, "==": v == c, "!=": v != c}[op]
+                fe, te = switch_bool_edges(b, bi)
+                taken = te if val == truth else fe
+            removed |= {(bi, tb) for _, tb in b.switch_edges(bi) if tb != taken}
+        key = frozenset(removed)
+        if key not in memo:
+            memo[key] = set(b.reachable(0, removed_blocks=oc.fail_blocks, removed_edges=removed))
+        out[v] = memo[key]
+    return out
+
+
+def dispatch_by_header_octet(f, b, field, want):
+    """`want` = {value: reader}: exactly these values of the header field can end in success, and value v reaches the
+    `read_payload` of its own reader and of no other."""
+    split = octet_split(f, b, lambda t: is_header_field(f, t, field))
+    if split is None:
+        return False, "no test of the header's %s in %s" % (field, b.name)
+    rets = set(b.return_blocks())
+    readers = [(c.bb, c.res) for c in b.calls() if (c.res or "").startswith(P) and (c.res or "").endswith("::read_payload") and not b.is_cleanup(c.bb)]
+    accepted = sorted(v for v, r in split.items() if r & rets)
+    wrong = {}
+    for v, rd in want.items():
+        got = sorted({res for bb, res in readers if bb in split[v]})
+        if got != [rd]:
+            wrong[v] = got
+    ok = accepted == sorted(want) and not wrong
+    return ok, {"accepted": accepted[:12], "expected": sorted(want), "wrong_reader": wrong}
+
+
+# ---------------------------------------------------------------------------------------------------------------
+# what a function returns, across private helpers
+
+def _tmap(t, fn):
+    """Rebuild term `t`, replacing every sub-term x for which fn(x) is not None by fn(x)."""
+    r = fn(t)
+    if r is not None:
+        return r
+    k = t[0]
+    if k == "field":
+        return (k, _tmap(t[1], fn), t[2], t[3] if len(t) > 3 else None)
+    if k == "variant":
+        return (k, _tmap(t[1], fn), t[2])
+    if k == "mvar":
+        return (k, t[1], t[2], _tmap(t[3], fn))
+    if k == "index":
+        return (k, _tmap(t[1], fn), _tmap(t[2], fn))
+    if k == "call":
+        return (k, t[1], tuple(_tmap(a, fn) for a in t[2]), t[3])
+    if k == "bin":
+        return (k, t[1], _tmap(t[2], fn), _tmap(t[3], fn))
+    if k == "un":
+        return (k, t[1], _tmap(t[2], fn))
+    if k == "cast":
+        return (k, _tmap(t[1], fn), t[2])
+    if k in ("discr", "len"):
+        return (k, _tmap(t[1], fn))
+    if k == "agg":
+        return (k, t[1], t[2], tuple((n, _tmap(v, fn)) for n, v in t[3]))
+    if k == "closure":
+        return (k, t[1], tuple(_tmap(a, fn) for a in t[2]))
+    return t
+
+
+def _split_vars(t, sy, fuel=4, limit=32):
+    """A local assigned on several paths (`let x = if c { a } else { b }`, the result slot of a `match`) stands for
+    each of its definitions: one alternative of `t` per definition."""
+    if fuel <= 0:
+        return [t]
+    v = next((x for x in walk(t) if x[0] == "var" and len(x) > 2), None)
+    if v is None:
+        return [t]
+    defs = [strip_deep(d) for _, d in sy.defs_of_var(v[2])]
+    defs = [d for d in defs if d[0] != "unknown" and not any(x == v for x in walk(d))]
+    if not defs:
+        return [t]
+    out = []
+    for d in defs:
+        out += _split_vars(_tmap(t, lambda x, d=d: d if x == v else None), sy, fuel - 1, limit)
+        if len(out) >= limit:
+            break
+    return out[:limit]
+
+
+def _private_callee(f, t):
+    if t[0] != "call":
+        return None
+    res = (t[3] or {}).get("res")
+    r = f.fns.get(res) if res else None
+    if not r or not r.get("has_body") or r.get("exported") or r.get("async") or r.get("impl_trait"):
+        return None
+    gb = f.body(res)
+    if gb is None or gb.is_coroutine or gb.arg_count != len(t[2]):
+        return None
+    return gb
+
+
+def returned_terms(f, name, depth=0, limit=48):
+    """Terms `name` may return on success, in the vocabulary of its own parameters.  Locals with several definitions
+    are split (one alternative each); a call of a private, non-async function of the crate is replaced by what that
+    function returns, its parameters substituted by the arguments (private helpers are not anchors: only what reaches
+    the public function's result counts)."""
+    b = f.body(name)
+    if b is None:
+        return []
+    sy = K.sym_of(b)
+    out = []
+    for _, _, t in success_values(b):
+        for alt in _split_vars(strip_deep(t), sy):
+            out += _expand_private_calls(f, alt, depth, limit, frozenset([name]))
+    return out[:limit]
+
+
+def _expand_private_calls(f, t, depth, limit, stack):
+    if depth >= 5:
+        return [t]
+    c = gb = None
+    for x in walk(t):
+        g = _private_callee(f, x)
+        if g is not None and g.name not in stack:
+            c, gb = x, g
+            break
+    if c is None:
+        return [t]
+    mapping = {}
+    for i in range(1, gb.arg_count + 1):
+        mapping[gb.local_name(i) or "_%d" % i] = c[2][i - 1]
+    inner = [K._subst(r, mapping) for r in returned_terms(f, gb.name, depth + 1, limit)]
+    if not inner:
+        return [t]
+    out = []
+    for r in inner:
+        new = _tmap(t, lambda x, r=r: r if x == c else None)
+        out += _expand_private_calls(f, new, depth, limit, stack | {gb.name})
+        if len(out) >= limit:
+            break
+    return out[:limit]
+
+
+# ---------------------------------------------------------------------------------------------------------------
+# `remaining -= n` in a cursor loop
+
+def _peel_ready_ok(t):
+    """The value a future / Result / Poll finally delivers: `Try::branch(poll(fut)↓Ready.0)↓Continue.0` → fut."""
+    t = strip_deep(t)
+    while True:
+        if t[0] == "mvar":
+            t = strip_deep(t[3])
+        elif t[0] == "field" and t[2] == "0" and t[1][0] == "variant" and t[1][2] in ("Continue", "Ok", "Ready"):
+            t = strip_deep(t[1][1])
+        elif t[0] == "call" and t[2] and (((t[3] or {}).get("name") == "branch" and ((t[3] or {}).get("trait") or "").endswith("ops::Try")) or
+                                          ((t[3] or {}).get("name") == "poll" and ((t[3] or {}).get("trait") or "").endswith("Future"))):
+            t = strip_deep(t[2][0])
+        else:
+            return t
+
+
+def cursor_sub_cannot_wrap(b, bi):
+    """The checked subtraction `A - n` ending block `bi` cannot wrap because n is the count returned by
+    `AsyncReadExt::read` into a slice cut to `..min(A, _)` (read returns at most the length of the slice it is given —
+    tokio's contract, in the trusted base) and A is not assigned between the `min` and the subtraction.  This is the
+    arithmetic face of R-FLOW read-is-bounded-by-what-is-missing.  Returns the reason or None."""
+    t = b.term(bi)
+    if t["t"] != "assert" or t.get("kind") != "Overflow:Sub" or len(t.get("ops", [])) != 2:
+        return None
+    sy = K.sym_of(b)
+    a, n = (strip_deep(sy.operand(o)) for o in t["ops"])
+    if a[0] != "var" or len(a) < 3:
+        return None
+    rd = _peel_ready_ok(n)
+    if not (rd[0] == "call" and (rd[3] or {}).get("name") == "read" and ((rd[3] or {}).get("trait") or "").endswith("AsyncReadExt") and len(rd[2]) == 2):
+        return None
+    buf = strip_deep(rd[2][1])
+    while buf[0] == "mvar":
+        buf = strip_deep(buf[3])
+    if not (buf[0] == "call" and (buf[3] or {}).get("name") in ("get_unchecked_mut", "index_mut", "get_mut") and len(buf[2]) == 2):
+        return None
+    rng = strip_deep(buf[2][1])
+    if not (rng[0] == "agg" and rng[1].endswith("ops::RangeTo") and rng[3] and rng[3][0][0] == "end"):
+        return None
+    end = strip_deep(rng[3][0][1])
+    if not (end[0] == "call" and (end[3] or {}).get("name") == "min" and len(end[2]) == 2 and
+            ((end[3] or {}).get("res") in ("std::cmp::min", "core::cmp::min") or ((end[3] or {}).get("trait") or "").endswith("cmp::Ord"))):
+        return None
+    if not any(strip_deep(x) == a for x in end[2]):
+        return None
+    mb = (end[3] or {}).get("bb")
+    if mb is None:
+        return None
+    # A keeps its value from the `min` to the subtraction
+    between = set(b.reachable(mb, removed_blocks=[bi]))
+    for d in b.defs().get(a[2], []):
+        if d[0] in between and d[0] != mb and bi in b.reachable(d[0]):
+            return None
+    return "the subtrahend is the count `read` returned for a slice cut to ..min(%s, _)" % render(a)
+
+
+class _CursorSub:
+    """What C04's site discipline sees of the context: an arithmetic-overflow site it cannot discharge by its own rules
+    or its reviewed table is given to cursor_sub_cannot_wrap (every subtraction at that place must be of that form)."""
+
+    def __init__(self, ctx, f):
+        self._ctx, self._f = ctx, f
+
+    def __getattr__(self, name):
+        return getattr(self._ctx, name)
+
+    def ob(self, rule, key, ok, what, where=None, detail=None, nontrivial=True):
+        if not ok and rule == "R-PANIC" and "|assert:Overflow:Sub|" in key and where:
+            fn = key.split("|", 1)[0]
+            why, n = [], 0
+            for name, b in self._f.bodies.items():
+                if root_fn(self._f, name) != fn:
+                    continue
+                for bi, blk in enumerate(b.blocks):
+                    tt = blk["term"]
+                    if tt["t"] == "assert" and tt.get("kind") == "Overflow:Sub" and not blk.get("cleanup") and b.where(bi) == where:
+                        n += 1
+                        why.append(cursor_sub_cannot_wrap(b, bi))
+            if n and all(why):
+                ok = True
+                what = "%s [C07 cursor rule: %s]" % (what, why[0])
+        return self._ctx.ob(rule, key, ok, what, where=where, detail=detail, nontrivial=nontrivial)
